@@ -239,7 +239,21 @@ fn powi_value(name: &'static str, x: [f64; 2], n: i32, r: [f64; 2], args: &[u64]
     )
 }
 
+pub fn hist_judge(c: &crate::hist::HCall, l: Option<&mut Local>) -> Verdict {
+    use crate::api::Op;
+    match c.as_op() {
+        Some(Op::sqrt) => judge_sqrt(c.a, l),
+        Some(Op::cbrt) => judge_cbrt(c.a, l),
+        Some(Op::hypot) => judge_hypot(c.a, c.b, l),
+        Some(Op::powi) => judge_powi(c.a, c.b[0] as i32, l),
+        _ => Verdict::Skip,
+    }
+}
+
 pub fn replay(call: &str, _clause: &str, args: &[u64]) -> Verdict {
+    if call == "hist" {
+        return crate::hist::replay(args, &hist_judge);
+    }
     let x = [f64::from_bits(args[0]), f64::from_bits(args[1])];
     match call {
         "sqrt" => judge_sqrt(x, None),
@@ -464,5 +478,21 @@ pub fn run(r: &mut Runner) {
                 }
             }
         });
+    }
+    {
+        use crate::api::Op;
+        use crate::hist::HCall;
+        let mut groups = crate::hist::unary_groups(&[Op::sqrt, Op::cbrt], &[[2.0, 1e-17], [9.0, 0.0], [0.3, -1e-18]], [5.0, 0.0]);
+        groups.extend(crate::hist::binary_groups(&[Op::hypot], &[([3.0, 1e-17], [4.0, 0.0]), ([1.0, 0.0], [1.0, 1e-17])]));
+        // the same base raised to exponents of different bit lengths and signs, and its negation
+        for x in [[3.0, 0.0], [1.5, 1e-17], [-2.0, 0.0], [0.75, -3e-18]] {
+            let mut g = vec![];
+            for n in [2.0, 5.0, 100.0, -2.0, -9.0, 1000.0] {
+                g.push(HCall::op(Op::powi, x, [n, 0.0]));
+            }
+            g.push(HCall::op(Op::powi, [-x[0], -x[1]], [3.0, 0.0]));
+            groups.push(g);
+        }
+        crate::hist::explore(r, "histories: sqrt/cbrt/hypot/powi", &groups, 3, &hist_judge, 14u64 << 55);
     }
 }
